@@ -156,12 +156,12 @@ pub fn check_behaviour(c: &BehaviourCase, st: &mut Stats) -> CheckResult {
 
 pub fn run(ctx: &Ctx, rep: &mut Report) {
     rep.assume(ASSUME_REF);
-    run_generated(ctx, rep, "pk_roundtrip", ctx.n(9_000, 300_000), || (0u8..3, gen::pk_spec()).prop_map(|(set, pk)| PkCase { set, pk }), check_pk);
+    run_generated(ctx, rep, "pk_roundtrip", ctx.n(30_000, 600_000), || (0u8..3, gen::pk_spec()).prop_map(|(set, pk)| PkCase { set, pk }), check_pk);
     run_generated(
         ctx,
         rep,
         "sk_roundtrip",
-        ctx.n(9_000, 300_000),
+        ctx.n(30_000, 600_000),
         || (0u8..3, gen::sk_spec(), proptest::option::of(any::<u64>())).prop_map(|(set, sk, random_rest)| SkCase { set, sk, random_rest }),
         check_sk,
     );
@@ -169,7 +169,7 @@ pub fn run(ctx: &Ctx, rep: &mut Report) {
         ctx,
         rep,
         "behaviour",
-        ctx.n(600, 20_000),
+        ctx.n(2000, 40_000),
         || {
             (0u8..3, gen::seed32(), gen::message(300), gen::context(), gen::seed32(), proptest::collection::vec(sigs::sig_mut(), 2..6))
                 .prop_map(|(set, key, msg, ctx, rnd, muts)| BehaviourCase { set, key, msg, ctx, rnd, muts })
